@@ -160,6 +160,9 @@ func (x *Exec) exit(s *State, env map[ssa.Value]*Val, rs []*Val) {
 		if lbl == "" {
 			lbl = fmt.Sprint(i)
 		}
+		if e.Assumed {
+			continue // assumed clause: relied on by callers, not an obligation of the body (listed as an assumption)
+		}
 		se.where = fmt.Sprintf("%s ensures.%s", con.Key, lbl)
 		t, err := x.evalSpec(se, e.Expr)
 		if err != nil {
